@@ -51,6 +51,7 @@
 #if defined(XALAN_BUILD_DEPRECATED_DOM_BRIDGE)
 #include <xalanc/XercesParserLiaison/Deprecated/XercesDocumentBridge.hpp>
 #endif
+#include <xalanc/XercesParserLiaison/XercesDOMException.hpp>
 #include <xalanc/XercesParserLiaison/XercesDocumentWrapper.hpp>
 #include <xalanc/XercesParserLiaison/XercesDOMSupport.hpp>
 
@@ -239,12 +240,23 @@ XercesParserLiaison::parseXMLStream(
 {
     ensureDOMParser();
 
-    m_domParser->parse(inputSource);
+    DOMDocument_Type*   theXercesDocument = 0;
 
-    DOMDocument_Type* const theXercesDocument =
-        m_domParser->getDocument();
+    try
+    {
+        m_domParser->parse(inputSource);
 
-    theXercesDocument->normalize();
+        theXercesDocument = m_domParser->getDocument();
+
+        theXercesDocument->normalize();
+    }
+    catch(const xercesc::DOMException&    theException)
+    {
+        // The DOM parser reports some errors, like an illegal
+        // version number, with an exception callers of the
+        // liaison don't know...
+        throw XercesDOMException(theException);
+    }
 
     XercesDocumentWrapper*  theNewDocument = 0;
 
